@@ -1,5 +1,6 @@
 import sys, glob
 tag, wt, site = sys.argv[1], sys.argv[2], sys.argv[3]
+extra = open(sys.argv[4]).read() if len(sys.argv) > 4 else ''
 props = "\n\n".join(open(f).read().strip() for f in sorted(glob.glob('/tmp/prop_C*.txt')))
 print(f"""You are helping to evaluate a verification tool for a Rust library by producing a *behaviour-changing but harmless* change: a change that a maintainer could plausibly merge, that alters HOW the library works internally and, if possible, also something a caller can observe - while every one of the 18 semantic properties listed below STILL HOLDS afterwards. The verification tool is supposed to stay silent on such a change; we want to find out whether it raises a false alarm.
 
@@ -16,6 +17,8 @@ Your task: make ONE realistic change to the library sources (under src/ only; do
  (d) the change is NOT a no-op: it restructures real logic (not just renames or comments) and, preferably, changes some behaviour that the properties leave open. Examples of what the properties leave open (verify against the texts yourself): WHICH error variant a rejected transport frame or a rejected parser input gets, as long as it is an error (but note where a property demands that two implementations agree on the kind - then change both consistently); the order in which independent validity checks are made; internal representation, state-machine layout, counters' types when they cannot overflow; how and when a growable buffer grows or how much it reserves (within the stated memory bound); text of `Display` / `Debug` output of types other than `ArrayBuf`; the diagnostic strings carried inside errors; how many bytes at a time are requested from an `io::Read` source as long as no byte beyond what is needed is consumed; splitting / merging helper functions; replacing loops by iterator chains or vice versa; computing the CRC with a different (correct) algorithm or table; behaviour outside a property's stated precondition.
 
 Concentrate on this part of the code base: {site}
+
+{extra}
 
 Deliverables, all left UNCOMMITTED in the worktree:
  1. the modified file(s) under src/,
